@@ -171,7 +171,8 @@ def spline_boxes(ctx, gen, inverse=False, prop='C01'):
             ok = ok_out and ok_ld
             ctx.case(key=('box', fam, K, regime, box, i < 2), branch=br, nontrivial=True)
             if not ok:
-                ctx.disagree(prop + '/spline-box', dict(case, x=x[i].item(), x_bits=bits.f64_bits(x[i].item())),
+                ctx.disagree(prop + '/spline-box', dict(case, x=x[i].item(), x_bits=bits.f64_bits(x[i].item()), inverse=inverse, extra=extra,
+                                                        params_row_bits=[bits.tensor_bits(p_[i]) for p_ in params]),
                              {'out': y[i].item(), 'ld': ld[i].item()}, {'out': my[i], 'ld': mld[i], 'err': merr[i]}, 'spline with non-default box differs')
 
 
